@@ -242,9 +242,19 @@ def static_tables(ctx):
 
 
 def main(ctx):
+    import time
     rng = ctx.rng
+    tm = {}
+    t0 = time.time()
     ctx.proof = common.check_proofs('C17')
+    tm['proofs'] = round(time.time() - t0, 1)
+    ctx.cov['phase_seconds'] = tm
     intens = 1 if ctx.proof.ok else 3
+    replay = None
+    if ctx.replay_in:           # ./check C17 --replay <file>: rerun exactly the recorded input
+        import json
+        replay = json.load(open(ctx.replay_in)).get('input') or {}
+        intens = 1
     try:
         static_tables(ctx)
     except Exception as e:
@@ -262,17 +272,25 @@ def main(ctx):
 
     # ---- objects
     specs = []
-    reps = ctx.pick(1, 4) * intens
+    reps = ctx.pick(1, 3) * intens
     for name in sorted(gens):
         for v in range(gens[name]):
             for rep in range(reps):
                 # quick tier: shapes for one HDF5 format and for pickle; thorough: every repetition
                 specs.append({'gen': name, 'args': {'variant': v} if gens[name] > 1 else {}, 'seed': ctx.seed * 1000 + rep * 97 + v,
-                              'methods': METHODS, 'shape': rep == 0, 'max_nodes': 700})
+                              'methods': METHODS, 'shape': rep == 0, 'max_nodes': ctx.pick(400, 1500),
+                              'shape_methods': ctx.pick(['hdf5:blocks', 'pickle'], METHODS)})
     rng.shuffle(specs)
+    if replay is not None:
+        specs = []
+        if replay.get('stream') == 'objects':
+            specs = [{'gen': replay['gen'], 'args': replay.get('args', {}), 'seed': replay.get('seed', 0),
+                      'methods': [replay['method']], 'shape': True, 'max_nodes': 1500}]
     nchunk = common.NPROC
     chunks = [specs[i::nchunk] for i in range(nchunk)]
+    t0 = time.time()
     res = common.run_impl_parallel('c17_impl.py', [{'kind': 'objects', 'specs': ch} for ch in chunks if ch], timeout=1500)
+    tm['objects'] = round(time.time() - t0, 1)
     covered = set()
     coq_cases, coq_meta = [], []
     hist = {'objects': 0, 'roundtrips': 0, 'with_sharing': 0, 'shape_cases': 0, 'shape_overflow': 0}
@@ -328,7 +346,7 @@ def main(ctx):
             # a class counts as covered when an instance went through at least one HDF5 round trip attempt
             covered.update(x.get('classes', []))
     ctx.cov['input_distribution'] = hist
-    for cls in sorted(discovered):
+    for cls in sorted(discovered) if replay is None else []:
         ctx.count('reflection', cls, nontrivial=True)
         if cls in covered:
             continue
@@ -344,15 +362,19 @@ def main(ctx):
     ctx.cov['classes_covered'] = len([c for c in discovered if c in covered])
 
     # ---- graphs: random heaps with sharing and cycles
-    ng = ctx.pick(400, 4000) * intens
+    ng = ctx.pick(300, 1500) * intens
     gcases = [c['case'] for c in common.corpus_cases('C17') if c.get('stream') == 'graphs']
     gcases += [dict(c) for c in FIXED_TUPLE_CYCLES]
     gcases += [gen_heap(rng) for _ in range(ng)]
+    if replay is not None:
+        gcases = [dict(replay['case'])] if replay.get('stream') == 'graphs' else []
     for c in gcases:
-        c['methods'] = ['hdf5:default', 'pickle', 'deepcopy']
+        c['methods'] = ['hdf5:default', 'pickle', 'deepcopy'] if replay is None else [replay['method']]
         c['tuple_on_cycle'] = tuple_on_cycle(c)
     chunks = [gcases[i::nchunk] for i in range(nchunk)]
+    t0 = time.time()
     res = common.run_impl_parallel('c17_impl.py', [{'kind': 'graphs', 'cases': ch} for ch in chunks if ch], timeout=1200)
+    tm['graphs'] = round(time.time() - t0, 1)
     gh = {'cases': 0, 'cyclic': 0, 'shared': 0, 'tuple_on_cycle': 0}
     for ci, (r, err) in enumerate(res):
         if err:
@@ -385,14 +407,16 @@ def main(ctx):
                     ctx.fail('oracle', '%s of a container graph: %s' % (method, '; '.join(o['problems'][:3]) or 'identity pattern differs'),
                              case, match_key=known or 'C17:graphs:%s:differs' % method)
                     continue
-                if not sh['overflow']:
+                if not sh['overflow'] and (method != 'deepcopy' or ctx.thorough()):
                     coq_cases.append(coq_case(sh))
                     coq_meta.append((case, sh))
     ctx.cov['graph_distribution'] = gh
 
     # ---- model <-> implementation inside Coq
     hist['shape_cases'] = len(coq_cases)
+    t0 = time.time()
     bad, err = common.coq_failing_indices('cases_c17', ['Base.Prelude', 'Model.Heap'], 'check_case', coq_cases, shard=120)
+    tm['coq_cases'] = round(time.time() - t0, 1)
     if err:
         ctx.fail('correspondence', 'model evaluation failed: ' + err[-600:], None)
     for b in bad[:5]:
